@@ -20,8 +20,8 @@ def tstamp_trace(B, wd, tier, seed):
 
 def secs(t):
     """seconds after 2030-01-01T00:00:00Z -> DATE-TIME text"""
-    d, r = divmod(t, 86400)
-    return '203001%02dT%02d%02d%02dZ' % (1 + d, r // 3600, r // 60 % 60, r % 60)
+    import datetime as _D
+    return (_D.datetime(2030, 1, 1) + _D.timedelta(seconds=t)).strftime('%Y%m%dT%H%M%SZ')       # t < 0: December 2029, the past of every run
 
 
 def days(t):
@@ -360,8 +360,16 @@ def map_script(rnd, uidpool, peers=(1000, 1001, 1002, 0, 4242), nreq=8, listy=Fa
                 if y < 0.15: it['owner_uid'] = rnd.choice([1000, 1001, 1002, 4242])
                 elif y < 0.3: it['owner_name'] = rnd.choice(['alice', 'bob', 'carol', 'nobody-such'])
                 items.append(it)
+            stale = rnd.random() < 0.12
+            if stale:
+                # an outdated version of a task (every occurrence in the past) and its current version in one request, as echsq add
+                # OLD NEW sends them: the second replaces the first, and is there after the loop has turned
+                u = rnd.choice(uidpool)
+                items = [{'kind': 'add', 'uid': u, 'occ': [-rnd.randint(60, 90000)], 'maxsim': 0, 'peer': p}, {'kind': 'add', 'uid': u, 'occ': [FAR + rnd.randint(0, 50)], 'maxsim': 0, 'peer': p}]
+                for it in items: it['start'] = secs(min(it['occ']))
             metas[len(cmds)] = items
             cmds.append(areq(rnd, p, request(items)))
+            if stale: cmds += ['R', 'DA']
         elif x < 0.75:
             items = [{'kind': 'cancel', 'uid': rnd.choice(uidpool) if rnd.random() < 0.93 else '', 'peer': p} for _ in range(rnd.choice([1, 1, 2]))]
             metas[len(cmds)] = items
